@@ -211,6 +211,15 @@ def nextScope (cur : σ) (last : Option σ) : σ :=
   | Option.none => cur
   | some c => chain cur c
 
+/-- `all_args.extend(v)`: the items Python's iteration of `v` yields (a set's order is CPython's
+    business: `none` here, reported as outside the modelled domain) -/
+def starItems : List V → Option (List V)
+  | [] => some []
+  | [.list xs] | [.tuple xs] => some xs
+  | [.dict _ es] => some (es.map (·.1))
+  | [.str s] => some (s.toList.map (fun c => V.str (String.singleton c)))
+  | _ => Option.none
+
 /-- `_handle_tuple`: each step is evaluated in the scope `chain_child` hands on -/
 def tupleLoop (rec : Rec σ) : List Spec → V → σ → Option σ → M V
   | [], res, _, _ => pure res
@@ -400,12 +409,9 @@ def invokeLoop (rec : Rec σ) (target : V) (sc : σ) :
     let fresh := kw.filter (fun e => !(rest.any (fun b => b.1 != "*" && b.2.2.any (·.1 == e.1))))
     if op == "*" then do
       let vs ← mapLoop rec target sc pos []
-      let extra : Option (List V) := match vs with
-        | [] => some []
-        | [.list xs] | [.tuple xs] => some xs
-        | _ => Option.none
+      let extra : Option (List V) := starItems vs
       match extra with
-      | Option.none => M.fail "TypeError"
+      | Option.none => M.fail (match vs with | [.set ..] => "Unsupported" | _ => "TypeError")
       | some xs => do
         let kvs ← mapLoop rec target sc (kw.map (·.2)) []
         let upd : Option (List (String × V)) := match kvs with
